@@ -504,3 +504,10 @@ func (s *Session) Sample(v any) {
 	}
 	s.mu.Unlock()
 }
+
+// Probing reports whether a finding probe is running.
+func (s *Session) Probing() bool {
+	s.mu.Lock()
+	defer s.mu.Unlock()
+	return s.probing != nil
+}
